@@ -67,10 +67,14 @@ FAMILIES = {
                     MaxNodes=4, MaxObs=1, MaxActs=8, MaxRounds=2, MaxH=16),
     # directed exhaustive families: fixed program (spec/MC.tla Prog*), all histories
     "p_cutreobs": fam(K=3, Prog="ProgCutReobs", Ops=["set"], MaxVars=1, MaxNodes=3, MaxObs=3, MaxActs=12, MaxRounds=4),
-    "p_bindtall": fam(Prog="ProgBindTall", Ops=["set"], MaxVars=3, MaxNodes=9, MaxObs=2, MaxActs=14, MaxRounds=2, MaxH=16),
+    "p_bindtall": fam(K=3, Prog="ProgBindTall", Ops=["set"], MaxVars=3, MaxNodes=9, MaxObs=2, MaxActs=14, MaxRounds=2, MaxH=16),
     "p_grow": fam(K=3, Prog="ProgGrow", Ops=["set"], MaxVars=2, MaxNodes=5, MaxObs=1, MaxActs=12, MaxRounds=4, MaxH=16),
     "p_refcut": fam(K=3, Prog="ProgRefCut", Ops=["set"], MaxVars=1, MaxNodes=4, MaxObs=2, MaxActs=10, MaxRounds=4),
     "p_update": fam(Prog="ProgUpdateOther", Ops=["set"], MaxVars=2, MaxNodes=3, MaxObs=2, MaxActs=8, MaxRounds=2),
+    "p_xsum": fam(K=3, Prog="ProgXSum", Ops=["set"], MaxVars=2, MaxNodes=4, MaxObs=2, MaxActs=11, MaxRounds=4, MaxH=16),
+    "p_xcell": fam(Prog="ProgXCell", Ops=["set"], MaxVars=2, MaxNodes=6, MaxObs=2, MaxActs=12, MaxRounds=4, MaxH=16),
+    "p_memo": fam(Prog="ProgMemo", Ops=["set"], MaxVars=2, MaxNodes=6, MaxObs=2, MaxActs=13, MaxRounds=3, MaxH=16),
+    "p_xjoin": fam(Prog="ProgXJoin", Ops=["set"], MaxVars=2, MaxNodes=5, MaxObs=2, MaxActs=11, MaxRounds=4, MaxH=16),
     # expert constructions
     "xjoin_s": fam(Ctors=["var", "nvar", "xjoin"], MaxVars=3, MaxNodes=5, MaxObs=1, MaxActs=9, MaxRounds=3, MaxH=16),
     "xsum_s": fam(K=3, Ctors=["var", "xsum"], MaxVars=2, MaxNodes=4, MaxObs=1, MaxActs=8, MaxRounds=3, MaxH=16),
@@ -130,11 +134,12 @@ PROPS = {
     "C11": dict(random=RND, families=plan("obs_s", "bind_s", "bindalt_s"), stage_modules_thorough=["stage_owntests"]),
     "C12": dict(random=RND, families=plan("own_s", "ownbind_s", "obsfx_s", "eff_s")),
     "C13": dict(families=plan("panic_s"), profiles=["debug", "release"]),
-    "C14": dict(families=plan("xjoin_s", "xsum_s")),
+    "C14": dict(families=plan("xjoin_s", "xsum_s", "p_xsum", "p_xjoin", "p_xcell")),
     "C15": dict(stage_modules=["stage_mapops"]),
-    "C16": dict(stage_modules=["stage_mapi"]),
+    # the per-key node mechanism (cell + make_stale under connect/disconnect) is also explored at engine level
+    "C16": dict(stage_modules=["stage_mapi"], families=plan("p_xcell"), retag={"C14": "C16"}),
     "C17": dict(stage_modules=["stage_mapops", "stage_mapi"]),
     "C18": dict(stage_modules=["stage_symdiff"], stage_prop="C18"),
     "C19": dict(families=plan("height_s", "misuse_s", "cycle_s"), profiles=["debug", "release"]),
-    "C20": dict(families=plan("memo_s")),
+    "C20": dict(families=plan("memo_s", "p_memo")),
 }
